@@ -31,8 +31,6 @@ def build_overrides(edits, root=None):
 def run_rules(pid, overrides):
     """returns (status, checker): status in ok|violation|error"""
     from sa.ctx import Ctx
-    from rules import gates
-    gates._cache.clear()
     mod = importlib.import_module(f"rules.{pid.lower()}")
     chk = Checker(pid, quiet=True)
     try:
